@@ -10,6 +10,7 @@ import (
 	"sort"
 	"strings"
 
+	"verif/shim/vfilepath"
 	"verif/shim/vos"
 )
 
@@ -85,6 +86,7 @@ type fsBackend struct {
 	rename  func(a, b string) error
 	stat    func(name string) (int64, error)
 	readdir func() ([]string, error)
+	listing func() []string // the same directory through Glob, a directory handle and WalkDir
 }
 
 func runFsScript(b fsBackend, ops []fsOp) string {
@@ -110,7 +112,7 @@ func runFsScript(b fsBackend, ops []fsOp) string {
 			r = fmt.Sprintf("%s/%d", errClass(err), n)
 		case "readdir":
 			l, err := b.readdir()
-			r = fmt.Sprintf("%s/%v", errClass(err), l)
+			r = fmt.Sprintf("%s/%v/%v", errClass(err), l, b.listing())
 		default:
 			if o.A >= len(hs) || hs[o.A] == nil {
 				r = "nohandle"
@@ -183,6 +185,27 @@ func realBackend(dir string) fsBackend {
 			}
 			return r, err
 		},
+		listing: func() []string {
+			var r []string
+			ms, _ := filepath.Glob(filepath.Join(dir, "*"))
+			for _, m := range ms {
+				r = append(r, "glob:"+filepath.Base(m))
+			}
+			ms, _ = filepath.Glob(filepath.Join(dir, "?"))
+			r = append(r, fmt.Sprintf("glob?:%d", len(ms)))
+			if d, err := os.Open(dir); err == nil {
+				ns, _ := d.Readdirnames(-1)
+				sort.Strings(ns)
+				r = append(r, "names:"+strings.Join(ns, ","))
+				d.Close()
+			}
+			filepath.WalkDir(dir, func(p string, de os.DirEntry, err error) error {
+				rel, _ := filepath.Rel(dir, p)
+				r = append(r, fmt.Sprintf("walk:%s/%v", rel, de != nil && de.IsDir()))
+				return nil
+			})
+			return r
+		},
 	}
 }
 
@@ -214,6 +237,27 @@ func shimBackend() fsBackend {
 			}
 			sort.Strings(r)
 			return r, err
+		},
+		listing: func() []string {
+			var r []string
+			ms, _ := vfilepath.Glob("/t/*")
+			for _, m := range ms {
+				r = append(r, "glob:"+vfilepath.Base(m))
+			}
+			ms, _ = vfilepath.Glob("/t/?")
+			r = append(r, fmt.Sprintf("glob?:%d", len(ms)))
+			if d, err := vos.Open("/t"); err == nil {
+				ns, _ := d.Readdirnames(-1)
+				sort.Strings(ns)
+				r = append(r, "names:"+strings.Join(ns, ","))
+				d.Close()
+			}
+			vfilepath.WalkDir("/t", func(p string, de os.DirEntry, err error) error {
+				rel, _ := vfilepath.Rel("/t", p)
+				r = append(r, fmt.Sprintf("walk:%s/%v", rel, de != nil && de.IsDir()))
+				return nil
+			})
+			return r
 		},
 	}
 }
